@@ -591,6 +591,7 @@ SIG_REFINE = 'PiecewiseConstantBirthDeath.log_prob:changes-when-an-epoch-is-spli
 SIG_TIE = 'PiecewiseConstantBirthDeath.log_prob:serial-tip-exactly-on-epoch-boundary'
 SIG_RM = 'PiecewiseConstantBirthDeath.log_prob:removal_probability-with-several-epochs:raises'
 SIG_RHOB = 'PiecewiseConstantBirthDeath.log_prob:rho-sampling-at-an-inner-boundary-differs-from-two-epoch-oracle'
+SIG_RHOB_REL = 'PiecewiseConstantBirthDeath.log_prob:rho-sampling-at-an-inner-boundary-with-relative-times-differs-from-two-epoch-oracle'
 SIG_DISTINCT = 'PiecewiseConstantBirthDeath.log_prob:two-epochs-with-distinct-rates-differ-from-two-epoch-oracle'
 SIG_REL_EDGE = 'PiecewiseConstantBirthDeath.log_prob:relative_times-with-root-edge:boundaries-not-relative-to-the-origin'
 SIG_BD0 = 'BirthDeath.log_prob:differs-from-constant-rate-oracle:tips-at-time-0'
@@ -864,7 +865,7 @@ def region_signature(c, W):
     if all(s == 0 for s in tips) and W['rho'] == 0:
         return SIG_ALL0
     if c.get('rhob'):
-        return SIG_RHOB
+        return SIG_RHOB_REL if c['times'] == 'rel' else SIG_RHOB
     if c.get('distinct'):
         return SIG_DISTINCT
     if c['times'] == 'rel':
@@ -1179,6 +1180,21 @@ def tasks_for(tier):
         ts.append(('density', D(m=2, times='abs', cell=cell, split={'rho0': False})))
     ts.append(('density', D(m=2, times='abs', rho_shape='short', survival=False, cell='0<s0<B<s1<c0', split={'rho0': False})))
     ts.append(('density', D(m=2, times='abs', cell='0<s0<=s1<B<c0', removal=True, split={'rho0': False})))
+    # ---- rho-sampling (no tip sampled) at the inner boundary of two epochs with identical rates, against the two-epoch
+    #      oracle composed from the constant-rate solution; 1, 2 and 0 lineages cross the boundary
+    RB = dict(m=2, rhob=True, survival=False, split={'rho0': False})
+    for cell in ('0<s0<=s1<c0<B', '0<s0<=s1<B<c0', '0<B<s0<=s1<c0'):
+        ts.append(('density', D(times='abs', cell=cell, **RB)))
+    # relative times together with a root edge: boundary = fraction x (root height + edge)
+    ts.append(('density', D(times='rel', origin='root_edge', cell='0<s0<=s1<B<c0', **RB)))
+    ts.append(('density', D(m=2, times='rel', origin='root_edge', cell='0<s0<=s1<B<c0', split={'rho0': False})))
+    if tier != 'quick':
+        ts.append(('density', D(times='abs', cell='0<s0<B<s1<c0', **RB)))
+        ts.append(('density', D(times='rel', origin='given', cell='0<s0<=s1<B<c0', **RB)))
+        ts.append(('density', D(times='abs', origin='root_edge', cell='0<s0<=s1<B<c0', **RB)))
+        ts.append(('density', D(n=3, times='abs', cell='0<s2<s0<=s1<B<c0<c1', **RB)))  # three lineages cross
+        ts.append(('density', D(n=3, times='abs', cell='0<s0<=s1<B<c0<s2<c1', **RB)))
+        ts.append(('density', D(m=2, times='rel', origin='given', cell='0<s0<B<s1<c0', split={'rho0': False})))
     # ---- one epoch against the constant-rate oracle (the Explorer enumerates tip-at-0 / rho = 0 / searchsorted regions)
     ts.append(('density', D(survival=True, removal=True)))
     ts.append(('density', D(survival=True, removal=False)))
@@ -1304,8 +1320,17 @@ def body(chk):
                        + ('; quick: serial tips, rho>0, s0<=s1, boundary above the lower tip (cells certified to cover this)' if quick else
                           '; rho>0 (cells certified to cover the n=2 domain); rho=0 and root-edge variants on selected cells; n=3: ' + ', '.join(CELLS_N3[:6])
                           + ' (no coverage claim for n=3)')),
-        'not covered': 'more than two epochs, epochs with different rates (BEAST2 multi-epoch literals are plain unit tests), rho-sampling '
-                       'at an inner boundary, relative times with two epochs, batched parameters, numerical integration of the master equations',
+        'rho at the inner boundary': ('two epochs, identical rates, 0<rho_1<1 at the boundary where no tip is sampled, no survival '
+                                      'conditioning, serial tips, rho>0: cells with 1, 2 and 0 crossing lineages (n=2)'
+                                      + ('' if quick else ', 3 crossing lineages (n=3), root edge')
+                                      + '; relative times with a root edge on one cell; oracle = constant-rate solution restarted at the '
+                                      'boundary with 1-rho_eff = (1-rho_1) p(boundary), validated on the two-epoch BEAST2 literals'),
+        'not covered': 'more than two epochs; epochs with different rates (the portfolio did not close the identity within 20 min; the '
+                       'two-epoch oracle reproduces the BEAST2 literals with distinct rates in plain floats only); rho-sampling at an inner '
+                       'boundary together with survival conditioning (equality is proved but positivity of the survival probability is '
+                       'undecided) or with a tip sampled at that boundary; the identical-rate refinement tasks cannot see a misplaced '
+                       'boundary (the density does not depend on it), only the rho-at-boundary tasks can; batched parameters; numerical '
+                       'integration of the master equations',
     })
     chk.total.stubs |= {'exp', 'log', 'sqrt (uninterpreted, generalised to real variables inside every lemma)'}
     pmap(run_task, tasks_for(chk.tier), chk.total, workers=12)
